@@ -27,6 +27,7 @@ from __future__ import annotations
 
 import copy
 import itertools
+import json
 import random
 
 from props import c04_cex as c04
@@ -44,7 +45,7 @@ RULE = (
 )
 ASSUMPTIONS = [
     "the reference brute force ranges over boundary-value domains (constants of the case +-1) for arguments, call values and timestamps and over {3 named senders, one other}: it under-approximates the set of breaking sequences, so only 'reference breaks => halmos FAIL' and 'halmos counterexample => replays' are asserted",
-    "top-level call value is not transferred in the replay (halmos does not move balance for top-level invariant calls; the generated targets never read balances)",
+    "top-level call value is not transferred in the replay of the main families (halmos does not move balance for top-level invariant calls; their targets never read balances); the separate `balance` family reads balances, transfers value on the reference side and is a recorded known finding",
     "filter precedence as documented by Foundry and restated in the comments of run_target_contract / resolve_target_*: effective senders = targeted - excluded, else all but excluded; contracts = (targeted or all deployed) - excluded + keys of targetSelectors, the test contract only if targeted explicitly; selectors = targeted, else all but excluded, else all non-view",
 ]
 WATCHDOG_S = {"quick": 900, "thorough": 7200}
@@ -79,6 +80,8 @@ def guard_expr(g):
         return cmp_expr(g[1], ["env", "CALLVALUE"], ["c", g[2]])
     if k == "ts":
         return cmp_expr(g[1], ["env", "TIMESTAMP"], ["c", g[2]])
+    if k == "selfbal":  # only in the `balance` family (known finding: value is not transferred)
+        return cmp_expr(g[1], ["bal", ["env", "ADDRESS"]], ["c", g[2]])
     raise ValueError(g)
 
 
@@ -275,7 +278,7 @@ def consts_of(case):
                     cs.add(g[2])
                 elif g[0] == "slot":
                     cs.add(g[3])
-                elif g[0] == "value":
+                elif g[0] in ("value", "selfbal"):
                     vs.add(g[2])
                 elif g[0] == "ts":
                     ts.add(g[2])
@@ -298,7 +301,7 @@ def uses(f, kind):
 
 
 def world_key(w, addrs):
-    return tuple(tuple(sorted(w.accounts[a].storage.items())) for a in addrs)
+    return tuple((tuple(sorted(w.accounts[a].storage.items())), w.accounts[a].balance) for a in addrs)
 
 
 class RefModel:
@@ -313,6 +316,7 @@ class RefModel:
         self.sender_ok, self.targets = filter_model(case, self.addrs)
         self.argd, self.vald, self.tsd = consts_of(case)
         self.any_ts = len(self.tsd) > 1
+        self.reads_balance = "selfbal" in json.dumps(case["targets"])
         self.watch = [self.addrs[n] for n in self.addrs]
 
     def call(self, w, ts, target, data, sender, value):
@@ -320,7 +324,10 @@ class RefModel:
         evm = refevm.EVM(w2, block=refevm.Block(timestamp=ts), cheats=cheats.Cheats())
         evm.max_steps = 20000
         msg = refevm.Msg(caller=sender, target=target, code_addr=target, value=value, data=data, origin=sender)
-        return w2, evm.run_tx(msg, transfer_value=False)
+        if self.reads_balance and value:
+            # the statement: "any call value the sender's balance allows" - senders are funded
+            w2.accounts.setdefault(sender, refevm.Account()).balance = 1 << 100
+        return w2, evm.run_tx(msg, transfer_value=self.reads_balance)
 
     def inv_broken(self, w, ts, i):
         _, res = self.call(w, ts, e2e.FOUNDRY_TEST, bytes.fromhex(e2e.selector(f"invariant_i{i}()")), e2e.FOUNDRY_CALLER, 0)
@@ -335,7 +342,7 @@ class RefModel:
                 else:
                     args = self.argd if uses(fn, "arg") else ([0] if fn["arg"] else [None])
                     snd = senders_all if uses(fn, "sender") else senders_all[:1]
-                    vals = self.vald if (fn["payable"] and uses(fn, "value")) else [0]
+                    vals = self.vald if (fn["payable"] and (uses(fn, "value") or self.reads_balance)) else [0]
                 for a, s, v in itertools.product(args, snd, vals):
                     data = bytes.fromhex(sel) + (b"" if a is None else a.to_bytes(32, "big"))
                     yield {"contract": name, "sig": sig, "arg": a, "sender": s, "value": v}, addr, data
@@ -527,6 +534,8 @@ def run_case(case, acc=None):
                 fails.append((["verdict-changes", mm], f"{v} vs {v2} (depth {case['depth']})"))
         except Exception as e:
             fails.append((["run-raise", mm, type(e).__name__], repr(e)[:300]))
+    if rm.reads_balance:
+        fails = [(["reads-balance"] + list(b), d) for b, d in fails]
     if acc is not None:
         minlen = min((len(s) for s in breaks.values()), default=0)
         fl = case["filters"]
@@ -535,6 +544,8 @@ def run_case(case, acc=None):
         kl = [f"depth:{case['depth']}", "break" if breaks else "no-break", f"minlen:{minlen}" if breaks else "minlen:-", "filters" if nonempty_filter else ("getters-empty" if fl is not None else "no-getters")]
         if probes:
             kl.append("probe-reachable")
+        if rm.reads_balance:
+            kl.append("reads-balance")
         if not complete:
             kl.append("reference-capped")
         kl.append("halmos:" + "/".join(str(x) for x in v.values()))
@@ -678,9 +689,22 @@ def permute_st():
     return st.builds(mk, st.sampled_from([(0, 1), (1, 0), (0, 2), (2, 1)]), st.sampled_from([(1, 2), (2, 1), (3, 5), (1, 100)]), st.booleans(), st.booleans(), st.integers(0, 50), st.sampled_from(["order", "nomerge", None]), st.integers(1, 1 << 20))
 
 
+def balance_st():
+    """targets that read their own balance after payable calls (halmos does not move the value of
+    top-level invariant calls: known finding, every bucket of this family is prefixed reads-balance)"""
+    def mk(c, two_step, seed):
+        fns = [
+            {"arg": False, "payable": True, "guards": [["value", "gt", 0]] if two_step else [], "effects": [["add", 0, 1]]},
+            {"arg": False, "payable": False, "guards": [["selfbal", "gt", c]], "effects": [["set", 1, 1]]},
+        ]
+        return {"slots": 3, "targets": [{"name": "A", "fns": fns}], "bump": False, "filters": None, "invariants": [{"contract": "A", "slot": 1, "cmp": "eq", "c": 0}], "depth": 2, "meta": None, "seed": seed}
+
+    return st.builds(mk, st.sampled_from([0, 1, 5]), st.booleans(), st.integers(1, 1 << 20))
+
+
 def shards(tier):
     n = 40 if tier == "quick" else 600
-    return [{"mode": "hyp", "n": n} for _ in range(14)] + [{"mode": "confluent", "n": n}, {"mode": "permute", "n": n // 2}]
+    return [{"mode": "hyp", "n": n} for _ in range(14)] + [{"mode": "confluent", "n": n}, {"mode": "permute", "n": n // 2}, {"mode": "balance", "n": 6}]
 
 
 def run_shard(spec, seed, tier):
@@ -690,7 +714,7 @@ def run_shard(spec, seed, tier):
         for b, d in run_case(case, acc):
             acc.fail(b, case, d)
 
-    run_cases({"confluent": confluent_st, "permute": permute_st, "hyp": case_st}[spec["mode"]](), body, spec["n"], seed)
+    run_cases({"confluent": confluent_st, "permute": permute_st, "hyp": case_st, "balance": balance_st}[spec["mode"]](), body, spec["n"], seed)
     return acc
 
 
